@@ -735,3 +735,50 @@ package thrift
 //@   ensures ret == nil ==> w.w.$wlen == old(w.w.$wlen) + 4 + len(v) && w.w.$nchunks == old(w.w.$nchunks) + 2 &&
 //@           len(w.w.$prevchunk) == 4 && encI32(w.w.$prevchunk, 0, len(v)) && len(w.w.$lastchunk) == len(v) && eqbytes(w.w.$lastchunk, 0, v, 0, len(v))
 //@   assigns w.w.$wlen, w.w.$nchunks, w.w.$lastchunk, w.w.$prevchunk
+
+// ---- skipping (stream reader): the same grammar, read off the unread stream $u ----
+
+//@ pred rdUsed(rd) = rd.$readlen - old(rd.$readlen)
+//@ pred skipStream(R, err, rd, U) = (R >= 0 ==> err == nil && same(rd.$u, U[R:]) && rdUsed(rd) == R) && (R < 0 ==> err != nil) && (R == -2 ==> err == errNegativeSize) && (R == -3 ==> err == errDepthLimitExceeded)
+
+//@ func BufferReader.skipstr
+//@   arith int
+//@   props C02, C03, C08, C17
+//@   requires !isnil(r.r)
+//@   let U = r.r.$u
+//@   let R = vs.StrLen(U)
+//@   ensures skipStream(R, ret, r.r, U)
+//@   ensures[C17] ret != nil ==> srcWrap(ret)
+//@   assigns r.r.$u, r.r.$readlen
+
+//@ func BufferReader.Skip
+//@   arith int
+//@   props C02, C03, C08, C17
+//@   requires !isnil(r.r)
+//@   let U = r.r.$u
+//@   let R = vs.ValLenD(U, t, 64)
+//@   ensures skipStream(R, ret, r.r, U)
+//@   ensures[C17] ret != nil ==> srcWrap(ret)
+//@   assigns r.r.$u, r.r.$readlen
+
+//@ func BufferReader.skipType
+//@   arith int
+//@   props C02, C03, C08, C17
+//@   requires !isnil(r.r) && 0 <= maxdepth && maxdepth <= 64
+//@   let U = r.r.$u
+//@   let R = maxdepth == 0 ? -3 : vs.ValLenD(U, t, maxdepth)
+//@   hint vs.LemmaFixedElems(U[5:], int8(U[0]), int(int32(vs.BE32(U, 1))), maxdepth)
+//@   hint vs.LemmaFixedPairs(U[6:], int8(U[0]), int8(U[1]), int(int32(vs.BE32(U, 2))), maxdepth)
+//@   ensures skipStream(R, ret, r.r, U)
+//@   ensures[C17] ret != nil ==> srcWrap(ret)
+//@   assigns r.r.$u, r.r.$readlen
+//@   decreases maxdepth
+//@   loop 1 invariant 0 <= j && j <= sz && err == nil && 6 <= rdUsed(r.r) && rdUsed(r.r) <= len(U) && same(r.r.$u, U[rdUsed(r.r):])
+//@   loop 1 invariant vs.PairsLenD(U[6:], kt, vt, sz, maxdepth) == vs.Then(rdUsed(r.r) - 6, vs.PairsLenD(r.r.$u, kt, vt, sz - j, maxdepth))
+//@   loop 1 decreases sz - j
+//@   loop 2 invariant 0 <= j && j <= sz && err == nil && 5 <= rdUsed(r.r) && rdUsed(r.r) <= len(U) && same(r.r.$u, U[rdUsed(r.r):])
+//@   loop 2 invariant vs.ElemsLenD(U[5:], vt, sz, maxdepth) == vs.Then(rdUsed(r.r) - 5, vs.ElemsLenD(r.r.$u, vt, sz - j, maxdepth))
+//@   loop 2 decreases sz - j
+//@   loop 3 invariant 0 <= rdUsed(r.r) && rdUsed(r.r) <= len(U) && same(r.r.$u, U[rdUsed(r.r):])
+//@   loop 3 invariant vs.FieldsLenD(U, maxdepth) == vs.Then(rdUsed(r.r), vs.FieldsLenD(r.r.$u, maxdepth))
+//@   loop 3 decreases len(r.r.$u)
